@@ -9,6 +9,7 @@ import (
 	"errors"
 	"fmt"
 	"math/rand"
+	"sync/atomic"
 
 	"github.com/iotaledger/iota.go/trinary"
 	"github.com/wollac/iota-crypto-demo/pkg/encoding/b1t6"
@@ -50,6 +51,7 @@ func init() {
 		Judge:       judge,
 		Render:      render,
 		Required: []string{
+			"cold start: first calls of a process made concurrently",
 			"b1t6/byte ok", "b1t8/byte ok",
 			"b1t6/group model=accept impl=accept", "b1t6/group model=reject impl=reject",
 			"b1t6/trytes model=accept impl=accept", "b1t6/trytes model=reject impl=reject",
@@ -63,7 +65,9 @@ func init() {
 			"b1t8/seq: invalid trit in the remainder only",
 			"accepted input re-encodes to itself", "b1t6/bytes ok", "b1t8/bytes ok",
 		},
-		Post: post,
+		Post:       post,
+		ColdStart:  true,
+		ColdProbes: 128,
 	})
 }
 
@@ -293,6 +297,8 @@ func tritString(t []int8) string {
 
 func render(class string, key []byte) interface{} {
 	switch class {
+	case "coldstart":
+		return map[string]interface{}{"scenario": "the first b1t6/b1t8 calls of a fresh process, made by 8 goroutines at the same instant"}
 	case clB6Byte, clB8Byte:
 		return map[string]interface{}{"byte": fw.Hex(key)}
 	case clB6Group:
@@ -610,7 +616,70 @@ func classify(o *fw.Obs, class string, mv tern.Verdict) {
 	}
 }
 
+// judgeColdStart: the first decode and encode calls of a fresh process, issued by 8 goroutines at the same
+// instant (tables built on first use are raced at their only vulnerable moment). Expectations are fixed
+// literals computed from the model beforehand.
+func judgeColdStart(o *fw.Obs) {
+	o.Nontrivial()
+	type probe struct {
+		trits  []int8
+		trytes string
+		bytes  []byte
+		ok     bool
+	}
+	var probes []probe
+	for _, b := range [][]byte{{0x00}, {0x01, 0xff}, {0x7f, 0x80, 0x0d}, {0xd4, 0x3c, 0x21, 0x99}} {
+		probes = append(probes, probe{tern.B1T6Encode(b), tern.B1T6EncodeTrytes(b), b, true})
+	}
+	probes = append(probes, probe{[]int8{1, 1, 1, 1, 1, 1}, "MM", nil, false}, probe{[]int8{-1, -1, -1, -1, -1, -1}, "NN", nil, false})
+	var bad atomic.Value
+	fail := func(format string, a ...interface{}) { bad.CompareAndSwap(nil, fmt.Sprintf(format, a...)) }
+	panics := fw.Burst(8, func(i int) {
+		for k := 0; k < len(probes); k++ {
+			pr := probes[(i+k)%len(probes)]
+			if i%2 == 0 {
+				dst := make([]byte, len(pr.trits)/6+1)
+				n, err := b1t6.Decode(dst, trinary.Trits(append([]int8(nil), pr.trits...)))
+				if (err == nil) != pr.ok || (pr.ok && !bytes.Equal(dst[:n], pr.bytes)) {
+					fail("b1t6.Decode(%v) = %x, err=%v; expected %x, valid=%v", pr.trits, dst[:n], err, pr.bytes, pr.ok)
+				}
+			} else {
+				got, err := b1t6.DecodeTrytes(trinary.Trytes(pr.trytes))
+				if (err == nil) != pr.ok || (pr.ok && !bytes.Equal(got, pr.bytes)) {
+					fail("b1t6.DecodeTrytes(%q) = %x, err=%v; expected %x, valid=%v", pr.trytes, got, err, pr.bytes, pr.ok)
+				}
+			}
+			if pr.ok {
+				if s := b1t6.EncodeToTrytes(pr.bytes); s != pr.trytes {
+					fail("b1t6.EncodeToTrytes(%x) = %q, expected %q", pr.bytes, s, pr.trytes)
+				}
+				t8 := make(trinary.Trits, b1t8.EncodedLen(len(pr.bytes)))
+				b1t8.Encode(t8, pr.bytes)
+				back := make([]byte, len(pr.bytes))
+				if n, err := b1t8.Decode(back, t8); err != nil || n != len(pr.bytes) || !bytes.Equal(back, pr.bytes) {
+					fail("b1t8 round trip of %x gave %x (n=%d, err=%v)", pr.bytes, back, n, err)
+				}
+			}
+		}
+	})
+	for _, pv := range panics {
+		if pv != nil {
+			o.Fail("panic", "panic in one of 8 goroutines making the first codec calls of the process at the same instant: %v", pv)
+			return
+		}
+	}
+	if m := bad.Load(); m != nil {
+		o.Fail("coldstart", "8 goroutines made the first codec calls of a fresh process at the same instant: %s", m)
+		return
+	}
+	o.Count("cold start: first calls of a process made concurrently")
+}
+
 func judge(class string, key []byte, o *fw.Obs) {
+	if class == "coldstart" {
+		judgeColdStart(o)
+		return
+	}
 	switch class {
 	case clB6Byte, clB8Byte:
 		if len(key) != 1 {
